@@ -121,6 +121,34 @@ def env0_to_python(env0: T.List[T.Any]) -> T.Dict[str, T.Any]:
     return {''.join(chr(c) for c in name): unp(val) for name, val in env0}
 
 
+class _Timeout(BaseException):
+    pass
+
+
+def _alarm(signum: int, frame: T.Any) -> None:
+    raise _Timeout()
+
+
+def _guard(seconds: int) -> None:
+    """A program of the core language terminates quickly; a broken interpreter may loop or blow up memory."""
+    import resource
+    import signal
+    signal.signal(signal.SIGALRM, _alarm)
+    signal.alarm(seconds)
+    try:
+        soft, hard = resource.getrlimit(resource.RLIMIT_AS)
+        want = 6 * 1024 ** 3
+        if soft == resource.RLIM_INFINITY or soft > want:
+            resource.setrlimit(resource.RLIMIT_AS, (want, hard))
+    except (ValueError, OSError):
+        pass
+
+
+def _unguard() -> None:
+    import signal
+    signal.alarm(0)
+
+
 def run_program(text: str, env0: T.Dict[str, T.Any]) -> T.Dict[str, T.Any]:
     _make_interpreter()
     mp, pr, ml = _MODS
@@ -140,6 +168,7 @@ def run_program(text: str, env0: T.Dict[str, T.Any]) -> T.Dict[str, T.Any]:
         return {'st': 'internal:' + type(e).__name__, 'vars': [], 'acc': False, 'ast': []}
     out: T.Dict[str, T.Any] = {'acc': True, 'ast': ld.project_ast(ast, mp)}
     try:
+        _guard(20)
         intr.evaluate_codeblock(ast)
         out['st'] = 'ok'
     except ml.MesonException:
@@ -148,8 +177,18 @@ def run_program(text: str, env0: T.Dict[str, T.Any]) -> T.Dict[str, T.Any]:
         out['st'] = 'fail'
     except RecursionError:
         out['st'] = 'fail'
+    except _Timeout:
+        out['st'] = 'internal:DoesNotTerminate'
+    except MemoryError:
+        out['st'] = 'internal:MemoryError'
     except Exception as e:  # noqa: BLE001
         out['st'] = 'internal:' + type(e).__name__
+    finally:
+        _unguard()
+    if out['st'].startswith('internal:'):
+        intr.variables = dict(_BASE)
+        out['vars'] = []
+        return out
     out['vars'] = _store(set(_BASE))
     return out
 
@@ -220,6 +259,7 @@ def run_tree(main: str, files: T.Dict[str, str], subs: T.Dict[str, str]) -> T.Di
         out: T.Dict[str, T.Any] = {'acc': True, 'ast': []}
         intr = None
         try:
+            _guard(30)
             env = environment.Environment(src, os.path.join(td, 'bld'), opts)
             intr = interpreter.Interpreter(build.Build(env), user_defined_options=opts)
             intr.run()
@@ -228,8 +268,16 @@ def run_tree(main: str, files: T.Dict[str, str], subs: T.Dict[str, str]) -> T.Di
             out['st'] = 'fail'
         except (iex.ContinueRequest, iex.BreakRequest, RecursionError):
             out['st'] = 'fail'
+        except _Timeout:
+            out['st'] = 'internal:DoesNotTerminate'
+            intr = None
+        except MemoryError:
+            out['st'] = 'internal:MemoryError'
+            intr = None
         except Exception as e:  # noqa: BLE001
             out['st'] = 'internal:' + type(e).__name__
+        finally:
+            _unguard()
         out['vars'] = [[[ord(c) for c in k], pval(v)] for k, v in intr.variables.items()] if intr is not None else []
         return out
 
